@@ -14,6 +14,8 @@ def _U():
     return Unsupported
 
 
+MUTATORS = {"append", "extend", "insert", "pop", "clear", "sort", "reverse", "remove", "update",
+            "setdefault", "add", "discard"}
 PURE_STR_METHODS = {"strip", "lstrip", "rstrip", "lower", "upper", "startswith", "endswith", "format",
                     "split", "splitlines", "join", "replace", "index", "find", "encode", "decode",
                     "rsplit", "title", "capitalize", "isdigit", "count", "ljust", "rjust", "partition",
@@ -146,6 +148,8 @@ def call_bound(self, st, bm, args, kwargs, node):
         key = (o.clsname() or "") + "." + name
         if key in self.stubs:
             return self.stubs[key](self, st, [recv] + args, kwargs, node)
+        if o.kind in ("list", "dict", "set") and name in MUTATORS:
+            o = st.wobj(recv)
         if o.kind == "list":
             return list_method(self, st, recv, o, name, args, kwargs, node)
         if o.kind == "dict":
